@@ -106,6 +106,22 @@ def normalize(raw):
         raw.clear()
         raw.update(new)
         log["types"] = dict(tmap)
+    # ---- constants renamed in place: same module, same type, same value, the only missing and the only new one
+    pc = pin.get("consts", {})
+    havec = {c["path"]: c for c in raw["consts"] if "int" in c}
+    cmap = {}
+    for p, (ty, val) in sorted(pc.items()):
+        if p in havec:
+            continue
+        cands = [q for q, c in havec.items() if q not in pc and _parent(q) == _parent(p) and c["ty"] == ty and c["int"] == val]
+        others = [x for x, (t2, v2) in pc.items() if x not in havec and _parent(x) == _parent(p) and t2 == ty and v2 == val]
+        if len(cands) == 1 and len(others) == 1:
+            cmap[cands[0]] = p
+    if cmap:
+        for c in raw["consts"]:
+            if c["path"] in cmap:
+                c["path"] = cmap[c["path"]]
+        log["consts"] = cmap
     cur = shape_of(raw)
     # ---- function renames
     missing = [p for p in pin["fns"] if p not in cur["fns"] and not p.startswith("<")]
